@@ -33,6 +33,24 @@ def rule_readlink(rep, d, fn):
     if not sites:
         rep.inconclusive("C20.readlink", "executable_path", "readlink call", where=d.where(fn), detail="no readlink call found on this platform")
         return
+    # the path the OS reported is handed out as it is: after it has been built nothing erases, truncates or rewrites it
+    rets = [x for x in ir.walk_expr(ir.body(fn)) if x.get("kind") == "ReturnStmt" and ir.ekids(x)]
+    rv = ir.strip(ir.ekids(rets[-1])[0]) if rets else None
+    while rv is not None and rv.get("kind") in ("ImplicitCastExpr", "CXXConstructExpr", "MaterializeTemporaryExpr", "ExprWithCleanups") and ir.ekids(rv):
+        rv = ir.strip(ir.ekids(rv)[0])
+    pvar = (rv.get("referencedDecl") or {}).get("name") if rv is not None and rv.get("kind") == "DeclRefExpr" else None
+    if pvar:
+        edits = []
+        for n in ir.walk_expr(ir.body(fn)):
+            if n.get("kind") in ("CXXMemberCallExpr",):
+                t_ = ir.sx(n)
+                if t_[0] == "call" and t_[1][0] == "mem" and t_[1][1] == ("ref", pvar) and t_[1][2] in ("erase", "resize", "pop_back", "replace", "insert", "append", "push_back", "clear"):
+                    edits.append(n)
+        if edits:
+            rep.violates("C20.readlink", "executable_path", "reported path returned unedited", where=d.where(edits[0]),
+                         detail="`%s` rewrites the path obtained from the OS: a location whose name happens to match is reported wrongly" % d.text(edits[0])[:60])
+        else:
+            rep.holds("C20.readlink", "executable_path", "reported path returned unedited", where=d.where(fn), detail="no erase/resize/replace/append on `%s`" % pvar)
     for i, (f_, call, t) in enumerate(sites):
         nm = "executable_path" if f_ is fn else "executable_path via %s" % f_.get("name")
         _readlink_site(rep, d, f_, call, t, nm if len(sites) == 1 else "%s [readlink call %d of %d]" % (nm, i + 1, len(sites)))
@@ -298,6 +316,25 @@ def rule_prefix(rep, d, fn):
                 env[nm_] = ("app", env.get(nm_, ("?", "uninitialised")))
             elif t[0] == "bin" and t[1] == "=" and norm.uncast(t[2])[0] == "ref":
                 env[norm.uncast(t[2])[1]] = ev(t[3])
+            elif t[0] == "call" and t[1][0] == "mem" and t[1][2] in ("resize", "erase") and norm.uncast(t[1][1])[0] == "ref" and len(t) == 3:
+                # in-place cut: s.resize(p) / s.erase(p) keep s[0..p)
+                nm_ = norm.uncast(t[1][1])[1]
+                cur = env.get(nm_, ("?", "uninitialised"))
+                a_ = tuple(x for x in norm.uncast(t[2]) if x != ("defaultarg",))
+                pos_ = ev(a_)
+                if a_[0] == "call" and str(a_[1][1] if a_[1][0] == "ref" else "").split("::")[-1] == "min" and len(a_) == 4:
+                    x_, y_ = ev(a_[2]), ev(a_[3])
+                    sz = lambda q: q[0] == "?" and False
+                    szt = [q for q in (a_[2], a_[3]) if norm.uncast(q)[0] == "call" and norm.uncast(q)[1][0] == "mem" and norm.uncast(q)[1][2] in ("size", "length")]
+                    fl = [q for q in (x_, y_) if q[0] == "flo"]
+                    if szt and fl and fl[0] == ("flo", cur):
+                        pos_ = fl[0]          # min(find_last_of(sep), size()): npos clamps to the whole string, like substr
+                if pos_ == ("flo", cur):
+                    env[nm_] = ("cut", cur) if t[1][2] == "erase" or (a_[0] == "call" and "min" in ir.show(a_[1])) else ("cutx", cur, "resize(find_last_of(sep)) - throws when no separator is left")
+                elif a_[0] == "bin" and a_[1] == "+" and ev(a_[2]) == ("flo", cur) and norm.int_of(a_[3]) == 1:
+                    env[nm_] = ("cutx", cur, "keeps s[0..last separator]; empty when no separator is left (npos + 1 wraps to 0)")
+                else:
+                    env[nm_] = ("?", ir.show(t)[:60])
             else:
                 straight = False
         elif k not in ("NullStmt",):
